@@ -49,6 +49,7 @@ type Beh struct {
 	Ver  int      `json:"ver"` // "apply": protocol version of the chain (default 5)
 	Net  uint64   `json:"net"` // "vsweep": network id of the signer
 	Vs   []int64  `json:"vs"`  // "vsweep": the V values to present
+	Cls  *BigCls  `json:"cls"` // "applybig": the magnitude classes
 	Mut  string   `json:"mut"` // "sigseq": the mutation that made the object
 	Seq  []string `json:"seq"` // "sigseq": the signers asked, in order
 }
@@ -400,6 +401,116 @@ func (w *world) apply(env *drive.Env, b *Beh) error {
 	return nil
 }
 
+// ---------------------------------------------------------------------------------------------------- big-number stage
+
+// BigCls is the magnitude-class record of the big-number stage of TxApply.tla.
+type BigCls struct {
+	Price  string `json:"price"`
+	Lim    string `json:"lim"`
+	Afford string `json:"afford"`
+	Val    string `json:"val"`
+}
+
+const bigPool = 8000000
+
+func pow2(n uint) *big.Int { return new(big.Int).Lsh(big.NewInt(1), n) }
+
+var bigPrices = map[string]*big.Int{"p3": big.NewInt(3), "p2e32": pow2(32), "p1e15": big.NewInt(1000000000000000), "p2e53": pow2(53), "p2e63": pow2(63),
+	"p2e64m1": new(big.Int).Sub(pow2(64), big.NewInt(1)), "p2e64": pow2(64), "p2e70": pow2(70)}
+var bigLimits = map[string]uint64{"g21000": 21000, "g2e20": 1 << 20, "gblock": bigPool}
+var bigValues = map[string]*big.Int{"zero": new(big.Int), "v2e64": pow2(64), "v2e128": pow2(128), "v2e255": pow2(255)}
+
+// applyBig applies one plain transfer whose price, value and sender balance are large.  The sender is a fresh account whose
+// balance is put into the block's state the way a genesis allocation is (AddBalance on the empty account); everything that
+// does not fit 31 bits is recorded as a decimal string.
+func (w *world) applyBig(env *drive.Env, b *Beh) error {
+	c := b.Cls
+	price, okp := bigPrices[c.Price]
+	limit, okl := bigLimits[c.Lim]
+	value, okv := bigValues[c.Val]
+	if !okp || !okl || !okv {
+		return fmt.Errorf("unknown big class %+v", c)
+	}
+	cost := new(big.Int).Mul(new(big.Int).SetUint64(limit), price)
+	bal := new(big.Int)
+	switch c.Afford {
+	case "below_gas":
+		bal.Sub(cost, big.NewInt(1))
+	case "exact_gas":
+		bal.Set(cost)
+	case "below_total":
+		bal.Add(cost, value).Sub(bal, big.NewInt(1))
+	case "exact_total":
+		bal.Add(cost, value)
+	case "above":
+		bal.Add(cost, value).Add(bal, big.NewInt(12345))
+	default:
+		return fmt.Errorf("unknown afford class %q", c.Afford)
+	}
+	p, err := w.Begin(w.A, w.Vals[4].Addr)
+	if err != nil {
+		return err
+	}
+	p.Hdr.GasLimit = bigPool
+	p.GP = new(core.GasPool).AddGas(bigPool)
+	key := fixture.Keys("bigacct", 1)[1]
+	p.State.AddBalance(key.Addr, bal)
+	p.State.Finalise(true)
+	track := []common.Address{key.Addr, addrRcpt}
+	snapS := func() map[string]interface{} {
+		bs, ns := []string{}, []uint64{}
+		for _, a := range track {
+			bs = append(bs, p.State.GetBalance(a).String())
+			ns = append(ns, p.State.GetNonce(a))
+		}
+		return map[string]interface{}{"bal": bs, "nonce": ns}
+	}
+	tx, err := types.SignTx(types.NewTransaction(p.State.GetNonce(key.Addr), addrRcpt, value, limit, price, nil), w.Signer, key.Priv)
+	if err != nil {
+		return err
+	}
+	ev := map[string]interface{}{"ev": "ApplyBig", "mode": b.Mode, "cls": c, "ver": w.ver, "vtag": fmt.Sprint("v", w.ver),
+		"tx": map[string]interface{}{"s": 1, "nonce": tx.Nonce(), "limit": limit, "priceS": price.String(), "valueS": value.String(), "balS": bal.String(),
+			"to": "acct", "pay": "big", "nz": 0, "z": 0}}
+	ev["pre"] = snapS()
+	poolPre := p.GP.Gas()
+	usedGas, gasRewards := new(uint64), new(big.Int)
+	var rc *types.Receipt
+	var aerr error
+	func() {
+		defer func() {
+			if r := recover(); r != nil {
+				ev["panic"] = fmt.Sprint(r)
+			}
+		}()
+		if b.Mode == "miner" {
+			p.State.Prepare(tx.Hash(), common.Hash{}, 0)
+			snapID := p.State.Snapshot()
+			rc, _, aerr = w.A.BC.Processor().ApplyTransaction(tx, w.Signer, p.State, w.A.BC, p.Hdr, &p.Hdr.Coinbase, usedGas, gasRewards, p.GP, p.Cfg, local.FakeRecorder())
+			if aerr != nil {
+				p.State.RevertToSnapshot(snapID)
+			}
+		} else {
+			p.State.Prepare(tx.Hash(), common.Hash{0xb1}, 0)
+			rc, _, aerr = w.A.BC.Processor().ApplyTransaction(tx, w.Signer, p.State, w.A.BC, p.Hdr, nil, usedGas, gasRewards, p.GP, p.Cfg, local.FakeRecorder())
+		}
+	}()
+	ev["post"] = snapS()
+	ev["pool"] = []uint64{poolPre, p.GP.Gas()}
+	ev["hdr"] = []interface{}{0, *usedGas, "0", gasRewards.String()}
+	ev["err"] = errClass(aerr)
+	if aerr != nil {
+		ev["errmsg"] = aerr.Error()
+	}
+	if rc != nil {
+		ev["rc"] = map[string]interface{}{"status": rc.Status, "gas": rc.GasUsed, "cum": rc.CumulativeGasUsed}
+	} else {
+		ev["rc"] = map[string]interface{}{"status": -1, "gas": 0, "cum": 0}
+	}
+	env.Emit(ev)
+	return nil
+}
+
 // ---------------------------------------------------------------------------------------------------- signatures
 
 type rawTx struct {
@@ -718,6 +829,10 @@ func run(env *drive.Env) error {
 		switch b.Kind {
 		case "apply":
 			if err := w.apply(env, &b); err != nil {
+				return err
+			}
+		case "applybig":
+			if err := w.applyBig(env, &b); err != nil {
 				return err
 			}
 		case "vsweep":
